@@ -13,6 +13,7 @@ mod spec;
 mod codec;
 mod hc;
 mod rate;
+mod ep;
 
 fn main() {
     let args: Vec<String> = std::env::args().collect();
@@ -32,6 +33,7 @@ fn main() {
 
     let mut hc_state = hc::State::new();
     let mut rate_state = rate::State::new();
+    let mut ep_state = ep::State::new();
 
     // Hang watchdog: a script line that makes no progress for HANG_MS is reported and the process
     // exits with code 3 (the orchestrator restarts the remaining cases).
@@ -66,6 +68,7 @@ fn main() {
             writeln!(out, "{}", line).unwrap();
             hc_state.reset();
             rate_state.reset();
+            if mode == "ep" { ep_state.reset(); }
             continue;
         }
         // flush before each op so that everything observed before a hang is kept
@@ -74,6 +77,7 @@ fn main() {
             "codec" => codec::op(&toks, &mut out),
             "hc" => hc_state.op(&toks, &mut out),
             "rate" => rate_state.op(&toks, &mut out),
+            "ep" => ep_state.op(&toks, &mut out),
             _ => panic!("unknown mode"),
         }
     }
